@@ -145,9 +145,27 @@ def do_stack(args):
             meta.append(None)
         lines.append(rt.crypt_line(e, 2 if e == "crypt_ra" else 0, p, s, "=", "s"))
         meta.append(req)
+        if e == "crypt" and kind == "ok" and rng.random() < 0.5:
+            # crypt (crypt (pw, s1), s2): the string the static call returned, passed back by the same pointer
+            m2 = rng.choice(["md5crypt", "sha256crypt", "descrypt", "bcrypt"])
+            s2, _ = gen.gen_valid(rng, m2)
+            if gen.cost_units(s2, 60) <= BUDGET:
+                lines.append(rt.crypt_line("crypt", 0, b"-", s2, "=", "o"))
+                meta.append(("alias", m2, None, s2))
     rows = rt.run_resilient(w, setup, lines)
     for ln, req, r in zip(lines, meta, rows):
         if req is None:
+            continue
+        if isinstance(r, dict) and r.get("ss", "0") not in ("0",):
+            acc.violation("%s/phrase-in-static-storage/%s" % (PID, req[1]),
+                          "%s pass-phrase windows found in the program's static storage (.data/.bss, where the library's "
+                          "static objects live) after the call%s; setting=%r" % (
+                              r["ss"], " (phrase = the string the previous crypt() returned)" if req[0] == "alias" else "",
+                              (req[3] or b"")[:80]),
+                          rt.replay_obj(fl, setup + lines[:lines.index(ln) + 1][-3:]))
+        if isinstance(r, dict) and "ss" in r:
+            acc.count("static_storage_scans")
+        if req[0] == "alias":
             continue
         acc.count("evaluations")
         if isinstance(r, Death):
@@ -308,6 +326,7 @@ def run(tier):
         "object_checks_failed_validation": int(a.n.get("object_checks_failed_validation", 0)),
         "stack_scans": int(a.n.get("stack_scans", 0)),
         "stack_bytes_scanned": int(a.n.get("stack_bytes_scanned", 0)),
+        "static_storage_scans": int(a.n.get("static_storage_scans", 0)),
         "realloc_events_checked": int(a.n.get("realloc_seen", 0)),
         "munmap_events_scanned": int(a.n.get("munmap_seen", 0)),
         "entropy_buffer_checks": int(a.n.get("entropy_checks", 0)),
